@@ -87,6 +87,10 @@ def attr_memos(ctx, modname, families, what, why):
             qual = '%s:%s.%s' % (modname, memo.cls, memo.method)
             need = sorted(memo.deps - memo.validated - lazy)
             ctx.saw('%s caches self.%s; unvalidated state it depends on: %s' % (qual, memo.attr, need))
+            unval = sorted(getattr(memo, 'param_deps', set()) - getattr(memo, 'param_validated', set()))
+            if unval:
+                ctx.violate(qual, 'the value cached in self.%s depends on the argument%s %s of %s.%s, which the reuse test does not compare: the first call decides what every later call returns' % (
+                    memo.attr, 's' if len(unval) > 1 else '', ', '.join(unval), memo.cls, memo.method), memo.store, why)
             for cname, mname, attr, node in cache.stale_writers(m, fam, memo, lazy):
                 ctx.violate('%s:%s.%s' % (modname, cname, mname), '%s.%s assigns self.%s, on which the cached self.%s (filled by %s.%s) depends, without resetting the cache' % (cname, mname, attr, memo.attr, memo.cls, memo.method), node, why)
     ctx.saw('%s: %d attribute memos analysed' % (what, n))
